@@ -214,6 +214,33 @@ def _filter_language(tier):
     return [h for h in C04_compare.harnesses(tier) if h.name == 'ExpressionEvaluator._eval_Compare']
 
 
+def _format_table(fi, arg):
+    """the string values of the constant dict a strftime format is looked up in - `fmt = TABLE.get(field)` / `TABLE[field]` with TABLE a dict display of
+    string constants at class or module level - or None"""
+    if not isinstance(arg, ast.Name):
+        return None
+    srcs = [st.value for st in ast.walk(fi.node) if isinstance(st, ast.Assign) and any(isinstance(t, ast.Name) and t.id == arg.id for t in st.targets)]
+    if len(srcs) != 1:
+        return None
+    e = srcs[0]
+    if isinstance(e, ast.Call) and isinstance(e.func, ast.Attribute) and e.func.attr == 'get':
+        tbl = e.func.value
+    elif isinstance(e, ast.Subscript):
+        tbl = e.value
+    else:
+        return None
+    name = tbl.attr if isinstance(tbl, ast.Attribute) else (tbl.id if isinstance(tbl, ast.Name) else None)
+    bodies = [fi.mod.tree.body] + [c.body for c in fi.mod.classes.values()]
+    for body in bodies:
+        for st in body:
+            tgt = st.targets[0] if isinstance(st, ast.Assign) and len(st.targets) == 1 else (st.target if isinstance(st, ast.AnnAssign) else None)
+            if isinstance(tgt, ast.Name) and tgt.id == name and isinstance(getattr(st, 'value', None), ast.Dict):
+                vals = st.value.values
+                if all(isinstance(v, ast.Constant) and isinstance(v.value, str) for v in vals):
+                    return {v.value for v in vals}
+    return None
+
+
 def structural(tier, res):
     out = []
     fresh = {'evaluate_variables', 'evaluate_section_filter', 'create_context', 'evaluate', 'evaluate_ast', 'classify_merchants',
@@ -238,7 +265,14 @@ def structural(tier, res):
         for n in ast.walk(fi.node):
             if isinstance(n, ast.Call) and isinstance(n.func, ast.Attribute) and n.func.attr == 'strftime':
                 ok = len(n.args) == 1 and isinstance(n.args[0], ast.Constant) and ast.unparse(n.func.value) == "t['date']"
-                (fmts.add(n.args[0].value) if ok else other.append(ast.unparse(n)))
+                if ok:
+                    fmts.add(n.args[0].value)
+                    continue
+                table = _format_table(fi, n.args[0]) if len(n.args) == 1 and ast.unparse(n.func.value) == "t['date']" else None
+                if table is not None:
+                    fmts |= table            # the format is looked up in a constant table of the class / module: its values are the formats
+                else:
+                    other.append(ast.unparse(n))
         # every dict / set key in the function is such a strftime value (no second notion of "month", e.g. date.month)
         keys = [ast.unparse(n) for n in ast.walk(fi.node) if isinstance(n, ast.Attribute) and n.attr in ('month', 'year', 'day') and ast.unparse(n.value) == "t['date']"]
         good = fmts == want and not other and not keys
